@@ -173,10 +173,26 @@ def run(chk):
     chk.trust('contracts/versioning.py spec clauses as a reading of the property statement')
     chk.assume('datetime arithmetic does not overflow (year 9999 boundary excluded)',
                'new_version: `data` carries type and id and holds no None values; composition with the real constructor is bounded (B), not proved')
-    for c in (K.fudge_contract(), K.revoke_contract(), K.new_version_contract()):
+    for c in (K.fudge_contract(), K.revoke_contract(), K.get_stix_version_contract(), K.new_version_contract()):
         chk.prove(c)
         if c.ensures: chk.canary(c)
     for name, claim in K.chain_lemmas(): chk.lemma(name, claim)
+    # class-table invariant the version contracts rest on (exhaustive): every registered class derives from the base class of its own spec version, and every type with
+    # created/modified/revoked is versionable -- so _get_stix_version never answers None (or the other version) for a library object
+    import stix2
+    from vf import objgen as G
+    import stix2.versioning as SV
+    n_cls = 0
+    for ver, base in (('2.0', stix2.v20._STIXBase20), ('2.1', stix2.v21._STIXBase21)):
+        for cname, (cat, cls) in sorted(G.classes(ver).items()):
+            n_cls += 1
+            if not issubclass(cls, base): chk.violation(f'class-table#derives from the base of its version:{ver}:{cname}', f'{ver} {cname}: {cls.__module__}.{cls.__name__} does not derive from {base.__name__}', {})
+            try:
+                o = G.build(f'{ver}:{cname}:minimal', cat, cls, G.minimal(cls, ver), ver)
+                if SV._get_stix_version(o) != ver: chk.violation(f'class-table#version of an instance:{ver}:{cname}', f'{ver} {cname}: _get_stix_version(instance) = {SV._get_stix_version(o)!r}', {})
+            except Exception: pass
+    chk.bounded_runs.append({'name': 'class-table invariant: every registered class derives from the base class of its version', 'bound': 'exhaustive over the registry of both versions', 'evaluations': n_cls,
+                             'distinct_classes': n_cls, 'witnesses': 0, 'wall_s': 0, 'samples': []})
     objs = base_objects()
     steps = [(k, o, d, ch) for (k, o), d, ch in itertools.product(objs, CLOCK_DELTAS, CHANGES)
              if not (isinstance(o, dict) and ('labels' in ch)) and not (k.startswith('v2') and 'Relationship' in k and 'name' in ch) and not (k == 'dict-unregistered' and ch.get('name', 1) is None)]
